@@ -79,6 +79,15 @@ func fileCases(r *mon.Run) []fileCase {
 		add(174, "size-1", n, "rand", "default-width")
 	}
 	add(174, "size-2", 349*2-1, "rand", "default-width")
+	// widths above the default (configurations such as a 'wide' profile)
+	for _, w := range []int{175, 256, 1024} {
+		for _, n := range []int{w - 1, w, w + 1, 2*w + 1} {
+			add(w, "size-1", n, "rand", "wide")
+		}
+	}
+	if !r.Quick() {
+		add(256, "size-1", 256*256+1, "rand", "wide")
+	}
 	// other chunk sizes
 	for _, ks := range []int{1, 3, 7, 16, 256} {
 		for _, n := range []int{1, 2, 5, 10} {
